@@ -90,6 +90,24 @@ def gen_probe_cases(n, r):
             limits.append([nreq, '%ds' % p])
             periods.append(float(p))
         shape = shapes[i % len(shapes)]
+        if i % 5 == 4:
+            # several limits reached at the same moment, the longer-period one freeing up first: m lone requests, an idle time shorter than
+            # the long period, then a burst that saturates the short limit
+            shape = 'lone-idle-burst'
+            ns, ps = r.randint(1, 5), r.choice([1, 2])
+            pl = r.randint(ps + 1, 5)
+            m = r.randint(1, 3)
+            limits = [[ns + m, '%ds' % pl], [ns, '%ds' % ps]]
+            periods = [float(pl), float(ps)]
+            if r.random() < 0.5:
+                limits.insert(r.randint(0, 2), [40, '5s'])
+                periods.insert(limits.index([40, '5s']), 5.0)
+            idle = int(1000 * (pl - 0.6 * ps))
+            per = m + ns + 2
+            gaps = [[idle if k == m else 0 for k in range(per)]]
+            cases.append({'i': i, 'limits': limits, 'period_s': periods, 'callers': 1, 'requests': per, 'gaps_ms': gaps, 'shape': shape,
+                          'workers': r.choice([1, 4]), 'spawn': False, 'deadline_ms': int(1000 * (3 * pl + 20))})
+            continue
         callers = 1 if shape in ('burst', 'steady') else r.randint(2, 8)
         # enough requests to cross at least two windows of the tightest limit, but bounded in time
         rate = min(nq / p for (nq, _), p in zip(limits, periods))
@@ -121,6 +139,9 @@ def blackbox_case(case):
         # requests the server received and then dropped without answering are requests all the same
         for k, kind in enumerate(['newOrder', 'authz', 'finalize']):
             rules.append({'kind': kind, 'cert_nth': 0, 'action': 'close_after_process' if k % 2 == 0 else 'close_before_process', 'id': 'cut%d' % k})
+    if case.get('forget'):
+        # the CA forgets the account when the first order of each certificate arrives: the re-registration requests count as well
+        rules.append({'kind': 'newOrder', 'cert_nth': 0, 'tx_from': 0, 'tx_to': 1, 'action': 'forget_account', 'id': 'forget'})
     plan = {'default': {'lifetimes_s': [90 * 86400], 'chain_lens': [1], 'authz_pending_polls': case['polls'], 'order_valid_polls': case['polls']},
             'faults': rules}
 
@@ -144,8 +165,8 @@ def blackbox_case(case):
             slack = max(0.1, 0.05 * p)
             for i in range(len(arr) - n):
                 if (arr[i + n] - arr[i]) / 1e9 < p - slack:
-                    pb.append(('arrivals', '%d requests reached the CA within %.3f s although the endpoint is limited to %d per %d s (%d certificates, retry storm %s, connection cuts %s)' % (
-                        n + 1, (arr[i + n] - arr[i]) / 1e9, n, p, n_certs, case['storm'], case.get('cuts'))))
+                    pb.append(('arrivals', '%d requests reached the CA within %.3f s although the endpoint is limited to %d per %d s (%d certificates, retry storm %s, connection cuts %s, account forgotten at newOrder %s)' % (
+                        n + 1, (arr[i + n] - arr[i]) / 1e9, n, p, n_certs, case['storm'], case.get('cuts'), case.get('forget'))))
                     break
         done = len([p for p in run.postops() if p['kv'].get('is_success') == 'true'])
         return run, arr, kinds, pb, done
@@ -174,12 +195,14 @@ def run(tier):
     C.build(('harness', 'b1'))
     chk = C.Check('C09', LEVEL, tier)
     r = C.rng('C09')
-    pcs = gen_probe_cases(16 if tier == 'quick' else 150, r)
+    pcs = gen_probe_cases(20 if tier == 'quick' else 150, r)
     bbs = []
     for i in range(4 if tier == 'quick' else 30):
         lim = r.choice([[(4, 2)], [(3, 1), (10, 5)], [(6, 3)], [(2, 1)], [(5, 2), (12, 6)]])
         bbs.append({'i': i, 'n_certs': r.randint(2, 4), 'limits': lim, 'storm': r.choice([0, 3, 5]) if i % 2 else 0, 'cuts': i % 2 == 0, 'polls': r.choice([0, 2]),
                     'workers': r.choice([None, 1, 4]), 'timeout': 150})
+    for k, lim in enumerate([[(1, 1)], [(2, 2)]] if tier == 'quick' else [[(1, 1)], [(2, 2)], [(1, 1)], [(3, 2)], [(1, 2)], [(2, 1), (5, 4)]]):
+        bbs.append({'i': len(bbs), 'n_certs': 2 + k % 2, 'limits': lim, 'storm': 0, 'cuts': False, 'forget': True, 'polls': 0, 'workers': r.choice([None, 1, 4]), 'timeout': 150})
     jobs = [('p', c) for c in pcs] + [('b', c) for c in bbs]
     results = C.parallel(jobs, lambda j: (j[0], probe_case(j[1]) if j[0] == 'p' else blackbox_case(j[1])), workers=14)
     for part, res in results:
@@ -199,11 +222,11 @@ def run(tier):
             for k, v in (res.get('kinds') or {}).items():
                 chk.count('blackbox_kind_%s' % k, v)
             if res['arrivals']:
-                chk.distinct.add(('blackbox', tuple(c['limits']), c['n_certs'], c['storm'], c['polls'], c.get('cuts')))
+                chk.distinct.add(('blackbox', tuple(c['limits']), c['n_certs'], c['storm'], c['polls'], c.get('cuts'), c.get('forget')))
         for cls, what in res['problems']:
             chk.violation('C09|%s|%s' % (part, cls), what + ' [limits %s]' % (c['limits'],), res, res.get('replay_dir'))
     chk.rule = ('probe: limit sets of 1-3 limits (n in 1..20, periods 1-5 s) x arrival shapes (burst, steady, 2-8 contending callers on one endpoint '
-                'lock, burst after idle) x runtime worker counts; black-box: 2-4 certificates on one limited endpoint with badNonce storms and polling; '
+                'lock, burst after idle, lone requests + idle + burst against two limits of different periods) x runtime worker counts; black-box: 2-4 certificates on one limited endpoint with badNonce storms, cut connections, accounts forgotten at newOrder and polling; '
                 'distinct = configurations with at least one admission / arrival observed')
     chk.assumptions = ['definite verdict only from return[i+n] - call[i] < period; tighter brackets and arrival-time verdicts must reproduce on a re-run',
                        'the verification build caps the limiter poll interval at 200 ms (the admission rule is unchanged)']
